@@ -31,6 +31,7 @@ use crate::hll::estimator::HipEstimator;
 use crate::hll::get_slot;
 use crate::hll::get_value;
 use crate::hll::pack_coupon;
+use crate::hll::serialization::COMPACT_FLAG_MASK;
 use crate::hll::serialization::COUPON_SIZE_BYTES;
 use crate::hll::serialization::CUR_MODE_HLL;
 use crate::hll::serialization::HLL_PREAMBLE_SIZE;
@@ -311,6 +312,7 @@ impl Array4 {
         mut cursor: SketchSlice,
         cur_min: u8,
         lg_config_k: u8,
+        lg_aux_arr: u8,
         compact: bool,
         ooo: bool,
     ) -> Result<Self, Error> {
@@ -333,27 +335,44 @@ impl Array4 {
 
         // Read packed 4-bit byte array
         let mut data = vec![0u8; num_bytes];
-        if !compact {
-            cursor
-                .read_exact(&mut data)
-                .map_err(insufficient_data("data"))?;
-        } else {
-            cursor.advance(num_bytes as u64);
-        }
+        // the register array is part of compact and updatable images alike
+        cursor
+            .read_exact(&mut data)
+            .map_err(insufficient_data("data"))?;
 
         // Read aux map if present
         let mut aux_map = None;
         if aux_count > 0 {
             let mut aux = AuxMap::new(lg_config_k);
-            for i in 0..aux_count {
+            // A compact image lists the aux_count exception pairs; an updatable image holds the
+            // whole exception table of 1 << lg_aux_arr ints, empty slots being zero.
+            let num_ints = if compact {
+                aux_count as usize
+            } else {
+                if lg_aux_arr > 26 {
+                    return Err(Error::deserial(format!(
+                        "lg_aux_arr must be at most 26, got {lg_aux_arr}"
+                    )));
+                }
+                1usize << lg_aux_arr
+            };
+            let mut found = 0u32;
+            for i in 0..num_ints {
                 let coupon = cursor.read_u32_le().map_err(|_| {
                     Error::insufficient_data(format!(
-                        "expected {aux_count} aux coupons, failed at index {i}",
+                        "expected {num_ints} aux ints, failed at index {i}",
                     ))
                 })?;
+                if coupon == 0 && !compact {
+                    continue;
+                }
                 let slot = get_slot(coupon) & ((1 << lg_config_k) - 1);
                 let value = get_value(coupon);
+                if found == aux_count || aux.get(slot).is_some() {
+                    return Err(Error::deserial("corrupted aux exception table"));
+                }
                 aux.insert(slot, value);
+                found += 1;
             }
             aux_map = Some(aux);
         }
@@ -399,8 +418,8 @@ impl Array4 {
         bytes.write_u8(lg_config_k);
         bytes.write_u8(0); // unused for HLL mode
 
-        // Write flags
-        let mut flags = 0u8;
+        // Write flags: the exceptions are written as a compact list, which is the compact form
+        let mut flags = COMPACT_FLAG_MASK;
         if self.estimator.is_out_of_order() {
             flags |= OUT_OF_ORDER_FLAG_MASK;
         }
